@@ -346,7 +346,8 @@ func (m *mapVal) Equals(v value) bool {
 	if len(m.Pairs) != len(m2.Pairs) {
 		return false
 	}
-	for key, val := range m.Pairs {
+	for _, key := range *m.Order { // insertion order: same answer (or same panic) on every run
+		val := m.Pairs[key]
 		val2 := m2.Pairs[key]
 		if val2 == nil || !val.Equals(val2) {
 			return false
